@@ -166,32 +166,79 @@ Section OPS.
   Qed.
 End OPS.
 
-(* ------------------------------------------------------------------ division *)
+(* ------------------------------------------------------------------ the concrete arithmetic (integers with +-inf) *)
+Lemma unview_view z : unview (view z) = z.
+Proof.
+  unfold view. destruct (z =? INFZ) eqn:E1; [apply Z.eqb_eq in E1; subst; reflexivity|].
+  destruct (z =? - INFZ) eqn:E2; [apply Z.eqb_eq in E2; subst; reflexivity | reflexivity].
+Qed.
+Lemma view_fin z : z <> INFZ -> z <> - INFZ -> view z = Fin z.
+Proof.
+  intros H1 H2. unfold view. apply Z.eqb_neq in H1. apply Z.eqb_neq in H2. rewrite H1, H2. reflexivity.
+Qed.
+Ltac view_cases a E := destruct (view a) eqn:E; pose proof (unview_view a) as U; rewrite E in U; cbn [unview] in U; subst a.
+
 Lemma divc_zero x : divc x (Some 0) = None.
-Proof. destruct x; reflexivity. Qed.
+Proof. destruct x as [a|]; [|reflexivity]. unfold divc, lifte. change (view 0) with (Fin 0). destruct (view a); reflexivity. Qed.
 Lemma divc_nan_r x : divc x None = None.
 Proof. destruct x; reflexivity. Qed.
-Lemma divc_exact a b : b <> 0 -> divc (Some (a * b)) (Some b) = Some a.
+Lemma divc_exact a b : b <> 0 -> b <> INFZ -> b <> - INFZ -> a * b <> INFZ -> a * b <> - INFZ ->
+  divc (Some (a * b)) (Some b) = Some a.
 Proof.
-  intros Hb. unfold divc. destruct (b =? 0) eqn:E; [apply Z.eqb_eq in E; contradiction|].
-  rewrite Z.div_mul by exact Hb. reflexivity.
+  intros Hb B1 B2 A1 A2. unfold divc, lifte. rewrite (view_fin b B1 B2), (view_fin (a * b) A1 A2). cbn [ediv].
+  destruct (b =? 0) eqn:E; [apply Z.eqb_eq in E; contradiction|]. cbn [unview]. rewrite Z.div_mul by exact Hb. reflexivity.
+Qed.
+(* an infinite numerator over a non-zero finite denominator stays infinite; finite / inf = 0; inf / inf = NaN *)
+Lemma divc_inf b : b <> 0 -> b <> INFZ -> b <> - INFZ ->
+  divc (Some INFZ) (Some b) = Some (if 0 <? b then INFZ else - INFZ) /\
+  divc (Some (- INFZ)) (Some b) = Some (if b <? 0 then INFZ else - INFZ) /\
+  divc (Some b) (Some INFZ) = Some 0 /\ divc (Some INFZ) (Some INFZ) = None /\ divc (Some INFZ) (Some (- INFZ)) = None.
+Proof.
+  intros Hb B1 B2. unfold divc, lifte. rewrite (view_fin b B1 B2).
+  change (view INFZ) with PInf. change (view (- INFZ)) with NInf. cbn [ediv].
+  apply Z.eqb_neq in Hb. rewrite Hb. repeat split; try reflexivity; [destruct (0 <? b) | destruct (b <? 0)]; reflexivity.
+Qed.
+Lemma arith_inf a : a <> INFZ -> a <> - INFZ ->
+  addc (Some INFZ) (Some a) = Some INFZ /\ addc (Some a) (Some (- INFZ)) = Some (- INFZ) /\
+  addc (Some INFZ) (Some (- INFZ)) = None /\ subc (Some INFZ) (Some INFZ) = None /\ subc (Some a) (Some INFZ) = Some (- INFZ) /\
+  mulc (Some INFZ) (Some 0) = None /\ mulc (Some INFZ) (Some INFZ) = Some INFZ /\
+  (0 < a -> mulc (Some a) (Some (- INFZ)) = Some (- INFZ)) /\ (a < 0 -> mulc (Some a) (Some (- INFZ)) = Some INFZ).
+Proof.
+  intros A1 A2. unfold addc, subc, mulc, lifte. rewrite (view_fin a A1 A2).
+  change (view INFZ) with PInf. change (view (- INFZ)) with NInf. change (view 0) with (Fin 0).
+  repeat split; try reflexivity.
+  - intros H. cbn [emul]. destruct (a =? 0) eqn:E; [apply Z.eqb_eq in E; lia|].
+    destruct (a <? 0) eqn:E2; [apply Z.ltb_lt in E2; lia | reflexivity].
+  - intros H. cbn [emul]. destruct (a =? 0) eqn:E; [apply Z.eqb_eq in E; lia|].
+    destruct (a <? 0) eqn:E2; [reflexivity | apply Z.ltb_ge in E2; lia].
 Qed.
 
-Lemma lift2_comm f : (forall a b, f a b = f b a) -> forall x y, lift2 f x y = lift2 f y x.
-Proof. intros H [a|] [b|]; simpl; try reflexivity. rewrite H. reflexivity. Qed.
+Lemma eadd_comm x y : eadd x y = eadd y x.
+Proof. destruct x, y; simpl; try reflexivity. f_equal. f_equal. lia. Qed.
+Lemma emul_comm x y : emul x y = emul y x.
+Proof. destruct x, y; simpl; try reflexivity. f_equal. f_equal. lia. Qed.
 Lemma addc_comm x y : addc x y = addc y x.
-Proof. apply lift2_comm. intros; lia. Qed.
+Proof. destruct x, y; try reflexivity. unfold addc, lifte. rewrite eadd_comm. reflexivity. Qed.
 Lemma mulc_comm x y : mulc x y = mulc y x.
-Proof. apply lift2_comm. intros; lia. Qed.
+Proof. destruct x, y; try reflexivity. unfold mulc, lifte. rewrite emul_comm. reflexivity. Qed.
 Lemma addc_neutral v : addc v (Some 0) = v /\ addc (Some 0) v = v /\ subc v (Some 0) = v.
-Proof. destruct v; simpl; repeat split; f_equal; lia. Qed.
+Proof.
+  destruct v as [a|]; [|repeat split; reflexivity]. unfold addc, subc, lifte. change (view 0) with (Fin 0).
+  view_cases a E; cbn [eadd eneg unview]; repeat split; try reflexivity; f_equal; lia.
+Qed.
 Lemma mulc_neutral v : mulc v (Some 1) = v /\ mulc (Some 1) v = v.
-Proof. destruct v as [z|]; unfold mulc, lift2; repeat split; try reflexivity; f_equal; lia. Qed.
+Proof.
+  destruct v as [a|]; [|repeat split; reflexivity]. unfold mulc, lifte. change (view 1) with (Fin 1).
+  view_cases a E; cbn [emul unview]; repeat split; try reflexivity; f_equal; lia.
+Qed.
 Lemma divc_neutral v : divc v (Some 1) = v.
-Proof. destruct v as [z|]; simpl; [|reflexivity]. rewrite Z.div_1_r. reflexivity. Qed.
+Proof.
+  destruct v as [a|]; [|reflexivity]. unfold divc, lifte. change (view 1) with (Fin 1).
+  view_cases a E; cbn [ediv unview]; try reflexivity. change (1 =? 0) with false. cbv iota. rewrite Z.div_1_r. reflexivity.
+Qed.
 Lemma lift2_strict f x y : (x = None \/ y = None) -> lift2 f x y = None.
 Proof. intros [->| ->]; [reflexivity | destruct x; reflexivity]. Qed.
-Lemma divc_strict x y : (x = None \/ y = None) -> divc x y = None.
+Lemma lifte_strict f x y : (x = None \/ y = None) -> lifte f x y = None.
 Proof. intros [->| ->]; [reflexivity | destruct x; reflexivity]. Qed.
 
 (* ------------------------------------------------------------------ aggregates *)
